@@ -190,6 +190,11 @@ class BitStringEncoder(AbstractItemEncoder):
             # TODO: try to avoid ASN.1 schema instantiation
             value = asn1Spec.clone(value)
 
+        if value.subtypeSpec:
+            # padded and chunked pieces of the value computed below are
+            # not values of the (size-)constrained type
+            value = value.clone(subtypeSpec=value.subtypeSpec.__class__())
+
         valueLength = len(value)
         if valueLength % 8:
             alignedValue = value << (8 - valueLength % 8)
